@@ -130,7 +130,7 @@ static int gen_c15(cs_t *cs, void *k, const runcfg_t *cfg) {
         else c->ws[0] = bad_w[cs_range(cs, 0, N_BAD_W - 1)];
         c->destnull = ph0 ? (int)cs_range(cs, 0, 1) : cs_range(cs, 0, 7) == 0;
         if (!c->destnull) { c->dmax = cs_range(cs, 0, 8); c->bos_known = (int)cs_range(cs, 0, 1); }
-        c->prior_fail = (int)cs_range(cs, 0, 1);
+        c->prior_fail = (int)cs_range(cs, 0, 2); /* 2: the failed call was entered with a mid-character state */
         return 1;
     }
     if (c->op == OP_ROUNDTRIP) c->sub = (int)cs_range(cs, 0, 1);
@@ -154,7 +154,7 @@ static int gen_c15(cs_t *cs, void *k, const runcfg_t *cfg) {
         long ql[3] = {0, T, BIGLEN};
         c->dmax = cs_range(cs, 0, 1) ? AMPLE : 0;
         c->len = ql[cs_range(cs, 0, 2)];
-        c->prior_fail = (int)cs_range(cs, 0, 1);
+        c->prior_fail = (int)cs_range(cs, 0, 2); /* 2: the failed call was entered with a mid-character state */
         return 1;
     }
     {
@@ -195,7 +195,7 @@ static int gen_c15(cs_t *cs, void *k, const runcfg_t *cfg) {
         c->dmax = dm;
         c->len = ln;
         c->bos_known = (int)cs_range(cs, 0, 1);
-        c->prior_fail = ph0 ? (int)cs_noise(cs, 0, 1) : (int)cs_range(cs, 0, 1);
+        c->prior_fail = ph0 ? (int)cs_noise(cs, 0, 2) : (int)cs_range(cs, 0, 2);
     }
     return 1;
 }
@@ -436,10 +436,9 @@ static void judge_str(const io_t *io, res_t *r, const char *sfx, int noslack) {
         }
         res_label(r, "expect:length");
         if (io->ret != 0) {
-            if (io->dmax > T) {
-                VIOL(r, fname, T == 0 ? "empty-result-rejected" : "size-query-rejected", sfx);
-                RES_DETAIL(r, "size query (dest NULL, dmax %zu) of a valid string of converted length %zu returned %d", io->dmax, T, (int)io->ret);
-            } else res_label(r, "query:dmax0:rejected(accepted)");
+            /* dest NULL is the documented size query; dmax may be anything, also 0 */
+            VIOL(r, fname, T == 0 ? "size-query-rejected:empty-result" : (io->dmax > T ? "size-query-rejected" : "size-query-rejected:dmax<=length"), sfx);
+            RES_DETAIL(r, "size query (dest NULL, dmax %zu) of a valid string of converted length %zu returned %d (errno before the call %d)", io->dmax, T, (int)io->ret, io->keep_errno ? io->errno_in : 0);
             return;
         }
         if (io->retval != T) { VIOL(r, fname, "size-query-wrong-length", sfx); RES_DETAIL(r, "*retvalp=%zd, libc says %zu", (ssize_t)io->retval, T); return; }
@@ -600,9 +599,23 @@ static int libc_died;
 static const unsigned char prior_mb[4] = {0xE2, 0x82, 0xFF, 0}; /* invalid in both locales */ /* in C.utf8 glibc leaves the two pending bytes in *ps */
 static const uint32_t prior_ws[2] = {0xD800, 0};
 static io_t P;
-static void prior_failed_call(int fn, mbstate_t *ps, int *err) {
+static void prior_failed_call(int fn, mbstate_t *ps, int *err, int midchar) {
     memset(&P, 0, sizeof P);
     P.fn = fn; P.dmax = 8;
+    if (midchar && fn == FN_MBSRTOWCS) {
+        /* the failing call is itself entered with a state in the middle of a character (an earlier restartable call
+           consumed E2 82 of a three-byte character), and then meets a byte that cannot continue it */
+        static const unsigned char cont_bad[4] = {0xFF, 'z', 'z', 0};
+        mbstate_t st;
+        memset(&st, 0, sizeof st);
+        if (mbrtowc(NULL, "\xE2\x82", 2, &st) == (size_t)-2) {
+            P.ps_in = st; P.len = 7; P.mb = cont_bad; P.mbn = 3; P.ws = prior_ws; P.wn = 1; P.wc = 0xD800;
+            do_call(&P);
+            *ps = P.ps_out;
+            *err = P.errno_out;
+            return;
+        }
+    }
     P.len = (fn == FN_MBSTOWCS || fn == FN_MBSRTOWCS) ? 1 : 7; /* len 1: glibc feeds the bytes one at a time and keeps E2 82 pending in *ps when FF fails */
     P.mb = prior_mb; P.mbn = 3; P.ws = prior_ws; P.wn = 1; P.wc = 0xD800;
     do_call(&P);
@@ -623,11 +636,11 @@ static int scenario(io_t *io, res_t *r, int prior_fail, int noslack) {
     {
         mbstate_t ps;
         int e;
-        prior_failed_call(io->fn, &ps, &e);
+        prior_failed_call(io->fn, &ps, &e, prior_fail == 2);
         if (P.faulted || P.ret == 0) { res_label(r, "prior-call-did-not-fail-cleanly"); return 0; }
         io->ps_in = ps;
         io->keep_errno = 1;
-        io->errno_in = e;
+        io->errno_in = e ? e : ERANGE; /* whatever errno the caller's earlier code left behind must not change the answer */
         r->nlabels = nl;
         do_call(io);
         if (mbsinit(&ps)) GUARDED_REF(judge(io, r, ":after-failed-call", noslack));
